@@ -178,10 +178,14 @@ func (c *codec) panicKey(op string, b []byte) string {
 // encoding accepted.
 func (a *acc) checkValue(c *codec, val value) []byte {
 	a.evals++
+	intact := shield(val.v)
 	e, err, pan := c.safeEnc(val.v)
 	if pan != "" {
 		a.fail(c.panicKey("Marshal", nil), fmt.Sprintf("%s: Marshal panicked (%s) on value %s", c.label(), pan, dump(val.v)))
 		return nil
+	}
+	if what := intact(); what != "" {
+		a.fail("encode-touches-callers-memory:"+c.label(), fmt.Sprintf("%s: %s; v=%s", c.label(), what, trunc(dump(val.v), 300)))
 	}
 	if err != nil {
 		if val.must {
